@@ -316,6 +316,13 @@ use crate::traits::{MultiscalarMul, VartimeMultiscalarMul};
     use crate::traits::VartimeMultiscalarMul;
     match EdwardsPoint::optional_multiscalar_mul(s.iter(), p.iter().enumerate().map(|(i, q)| if (none_mask >> (i & 63)) & 1 == 1 { None } else { Some(*q) })) { Some(r) => { *out = r; true } None => false }
 }
+// precomputed Straus (static points with width-8 NAF tables + dynamic points), through the public dispatching type
+#[cfg(feature = "alloc")]
+#[no_mangle] #[inline(never)] pub fn vp_g_precomputed(st_s: &[Scalar], st_p: &[EdwardsPoint], dy_s: &[Scalar], dy_p: &[EdwardsPoint]) -> EdwardsPoint {
+    use crate::traits::VartimePrecomputedMultiscalarMul;
+    let pre = crate::edwards::VartimeEdwardsPrecomputation::new(st_p.iter());
+    pre.vartime_mixed_multiscalar_mul(st_s.iter(), dy_s.iter(), dy_p.iter())
+}
 // the PUBLIC constant-time entry point on slices of any length (dispatch included): C04 / C14
 #[cfg(feature = "alloc")]
 #[no_mangle] #[inline(never)] pub fn vp_g_multiscalar_mul(s: &[Scalar], p: &[EdwardsPoint]) -> EdwardsPoint { use crate::traits::MultiscalarMul; EdwardsPoint::multiscalar_mul(s.iter(), p.iter()) }
